@@ -1916,6 +1916,15 @@ func (w *c10World) actHtlcCreate() {
 	} else {
 		lock = c10Sha256(pre)
 	}
+	if w.hrng == nil {
+		w.hrng = rand.New(rand.NewSource(fw.SeedFor(w.c.Seed, "c10-hostile-deposits/"+w.id)))
+	}
+	if w.hrng.Intn(6) == 0 {
+		// lock shapes nobody can open honestly: unknown hash functions, digests of the wrong length, no digest at all
+		hashType = []uint8{2, 7, 255, hashType, hashType}[w.hrng.Intn(5)]
+		lock = [][]byte{{}, lock[:31], append(append([]byte{}, lock...), 0), {0}, lock}[w.hrng.Intn(5)]
+		w.c.Count("htlc_creates_with_hostile_lock_shapes", 1)
+	}
 	z := types.ZnnTokenStandard
 	switch r := w.rng.Intn(10); {
 	case r < 3:
